@@ -88,8 +88,9 @@ for fn, can in (("reduceVertices", [dict(name="shortcut_not_validated", where="b
                                     dict(name="frees_an_endpoint", where="body:reduceVertices", rx=r"for \(int j = p1 \+ 1; j < p2; \+\+j\)", repl="for (int j = p1 + 1; j <= p2; ++j)")]),
                 ("collapseCloseVertices", [dict(name="erases_wrong_range", where="body:collapseCloseVertices", rx=r"ERASE\(p1 \+ 1, p2\);", repl="ERASE(p1 + 1, p2 + 1 < (int)states_size ? p2 + 1 : p2);")]),
                 ("smoothBSpline", [dict(name="outgoing_leg_not_validated", where="body:smoothBSpline", rx=r"CM\(temp1, states\[i \+ 1\]\)", repl="CM(temp2, states[i + 1])")])):
-    UNITS.append(dict(name="c17_simplifier_" + fn, template="C17/simplifier.c", mode="plain", entry="h_" + fn, sources=PSS, flags=PFL, unwind=7, level="bounded", backend="cadical", timeout=1500, defines=dict(NMAX=5, CAP=5, NREF=9),
-                      bound="paths of <= 5 states (smoothBSpline: <= 3 states, 1 step), <= 2 steps", functions=["ompl::geometric::PathSimplifier::" + fn], canaries=can))
+    UNITS.append(dict(name="c17_simplifier_" + fn, template="C17/simplifier.c", mode="plain", entry="h_" + fn, sources=PSS, flags=PFL, unwind=7, level="bounded", backend="cadical", timeout=1500,
+                      **(dict(defines=dict(NMAX=4, CAP=4, NREF=8), tiers=dict(thorough=dict(defines=dict(NMAX=5, CAP=5, NREF=9)))) if fn == "collapseCloseVertices" else dict(defines=dict(NMAX=5, CAP=5, NREF=9))),
+                      bound="paths of <= 5 states (collapseCloseVertices: 4 in the quick tier; smoothBSpline: <= 3 states before subdivision, 1 step), <= 2 steps (0 = as many as states)", functions=["ompl::geometric::PathSimplifier::" + fn], canaries=can))
 
 # ---------------------------------------------------------------- PathSimplifier::findBetterGoal (bounded)
 BGR = [
@@ -104,22 +105,22 @@ BGR = [
     (r"\(\*start\)", "dists[start]", 0), (r"\(\*end\)", "dists[end]", 0), (r"\(\*end - \*start\)", "(dists[end] - dists[start])", 0),
     (r"states\.erase\(states\.begin\(\) \+ (\w+) \+ 2, states\.end\(\)\);", r"ERASE_TAIL(\1 + 2);", 0),
     (r"states\.size\(\)", "states_size", 0), (r"dists\.size\(\)", "dists_size", 0), (r"dists\.back\(\)", "dists[dists_size - 1]", 0), (r"costs\.back\(\)", "costs[costs_size - 1]", 0),
-    (r"\bstates\[([^\]]+)\]", r"(*states_at(\1))", 0), (r"\bdists\[([^\]]+)\]", r"(*dists_at(\1))", 0), (r"\bcosts\[([^\]]+)\]", r"(*costs_at(\1))", 0),
+    (r"\bstates\[([^\]]+)\]", r"states[IDX_S(\1)]", 0), (r"\bdists\[([^\]]+)\]", r"dists[IDX_D(\1)]", 0), (r"\bcosts\[([^\]]+)\]", r"costs[IDX_C(\1)]", 0),
     (r"obj_->combineCosts\(", "COMBINE(", 0), (r"obj_->motionCost\(", "MCOST(", 0), (r"obj_->isCostBetterThan\(", "BETTER(", 0), (r"base::Cost (\w+) = ", r"long \1 = ", 0),
     (r"base::State \*(\w+)( =|;)", r"SRef \1\2", 0), (r"si_->allocState\(\)", "ALLOC()", 0), (r"si_->freeState\(", "FREE(", 0), (r"si_->distance\(", "DIST(", 0), (r"si_->checkMotion\(", "CM(", 0), (r"si_->copyState\(", "COPYSTATE(", 0),
     (r"gsr_->sampleGoal\(", "SAMPLEGOAL(", 0), (r"gsr_->isStartGoalPairValid\(", "PAIRVALID(", 0), (r"ss->interpolate\(", "INTERP(", 0),
     (r"!ptc\b", "!PTC()", 0), (r"rng_\.uniformReal\(std::max\(", "UNIFORM_REAL(MAXD(", 0), (r"std::max\(1u, startIndex\)", "MAXU(1u, startIndex)", 0),
 ]
-UNITS.append(dict(name="c17_simplifier_findBetterGoal", template="C17/bettergoal.c", mode="plain", entry="h_findBetterGoal", flags=PFL, unwind=7, unwindset={"ps_findBetterGoal.5": 2, "ps_findBetterGoal.6": 2}, defines=dict(MAXGOALS=1, MAXSA=1), level="bounded", backend="cadical", timeout=1500,
+UNITS.append(dict(name="c17_simplifier_findBetterGoal", template="C17/bettergoal.c", mode="plain", entry="h_findBetterGoal", flags=PFL, unwind=7, unwindset={"ps_findBetterGoal.5": 2, "ps_findBetterGoal.6": 2}, defines=dict(MAXGOALS=1, MAXSA=1), split="per-property", split_groups=[r"\\.(array_bounds|pointer_dereference)\\.", r"^h_findBetterGoal\\.overflow", r"^ps_findBetterGoal\\.overflow\\.[0-9]$", r"^ps_findBetterGoal\\.overflow\\.1[0-9]$", r"^ps_findBetterGoal\\.overflow\\.2[0-9]$", r"^ps_findBetterGoal\\.overflow", r"\\.overflow\\.", r"unwind"], level="bounded", backend="minisat", timeout=900,
                   sources=[dict(name="findBetterGoal", file=PS, sig=r"bool ompl::geometric::PathSimplifier::findBetterGoal\(PathGeometric &path, const base::PlannerTerminationCondition &ptc,\s*unsigned int samplingAttempts, double rangeRatio,\s*double snapToVertex\)", rules=BGR, loops={"allow_uncontracted": True})],
                   bound="paths of <= 4 states, 1 sampled goal x 1 sampling attempt (every attempt before the accepted one leaves the path untouched); additive objective with non-negative motion costs <= 2^40", functions=["ompl::geometric::PathSimplifier::findBetterGoal"],
-                  canaries=[dict(name="cost_to_come_before_snapping", where="body:findBetterGoal", rx=r"if \(dists\[end\] - t < threshold\)\s*startIndex = endIndex;", repl="if (dists[end] - t < threshold) { startIndex = endIndex; costToCome = (*costs_at(start)); }"),
+                  canaries=[dict(name="cost_to_come_before_snapping", where="body:findBetterGoal", rx=r"long costToCome = costs\[IDX_C\(startIndex\)\];", repl="long costToCome = costs[IDX_C(start)];"),
                             dict(name="goal_motion_not_validated", where="body:findBetterGoal", rx=r"&& CM\(state, tempGoal\)", repl="&& (CM(state, tempGoal) || 1)")]))
 
 ASSUMPTIONS = ["the state vector is modelled as the identity sequence; getMotionStates(s1,s2,block,ns,false,true) yields exactly ns interior states (its own contract, not verified here)",
                "(int)floor(0.5 + count*segLen/remaining) is an arbitrary int below INT_MAX: for a zero-length path the operand is NaN and the conversion is undefined behaviour in C++ (x86 yields INT_MIN, which the code tolerates); recorded as an assumption"]
 TRUSTED = ["extraction rewrite tables of units/C17.py", "stubs in units/C17/pathgeom.c", "CBMC 6.11 DFCC + cadical/minisat"]
-NOT_COVERED = ["PathSimplifier: ropeShortcutPath, partialShortcutPath, perturbPath, findBetterGoal, simplify (reduceVertices, collapseCloseVertices and smoothBSpline are checked bounded: <= 5 states, <= 2 steps); PathHybridization; every 'never longer / never worse' cost clause (exact-arithmetic)",
+NOT_COVERED = ["findBetterGoal: that the interpolation parameter (t - d[start]) / (d[end] - d[start]) lies in [0,1] (floating-point division: no back end finished)", "PathSimplifier: ropeShortcutPath, partialShortcutPath, perturbPath, simplify (reduceVertices, collapseCloseVertices, smoothBSpline and findBetterGoal are checked bounded: <= 5 states, <= 2 steps); PathHybridization; every 'never longer / never worse' cost clause (exact-arithmetic)",
                "SpaceInformation::getMotionStates, PathGeometric::interpolate() (no-argument form), 'length unchanged' by densification"]
 
 MISC_CPPS = ['src/ompl/geometric/src/PathGeometric.cpp']
